@@ -302,6 +302,32 @@ func ruleCacheDiscipline(c *eng.Ctx) {
 	type spec struct{ field, owner string }
 	for _, sp := range []spec{{"objCache", "reader.(*Reader).GetObject"}, {"objStmCache", "reader.(*Reader).getObjectStream"}} {
 		owner := c.P.Func(sp.owner)
+		if c.P.FuncExact(sp.owner) == nil {
+			// the loader was renamed or moved: the owner is the one function that both looks the cache up and
+			// fills it (the role), if there is exactly one
+			var cands []*ssa.Function
+			for _, fn := range c.P.ModuleFuncs() {
+				wr, rd := false, false
+				eng.Instrs(fn, false, func(in ssa.Instruction) {
+					switch x := in.(type) {
+					case *ssa.MapUpdate:
+						if fr, ok := eng.LoadOfField(x.Map); ok && fr.Field == sp.field && strings.HasSuffix(fr.Struct, "reader.Reader") {
+							wr = true
+						}
+					case *ssa.Lookup:
+						if fr, ok := eng.LoadOfField(x.X); ok && fr.Field == sp.field && strings.HasSuffix(fr.Struct, "reader.Reader") {
+							rd = true
+						}
+					}
+				})
+				if wr && rd && len(fn.Params) > 1 {
+					cands = append(cands, fn)
+				}
+			}
+			if len(cands) == 1 {
+				owner = cands[0]
+			}
+		}
 		if owner == nil {
 			c.Undec(R, sp.owner, token.NoPos, "anchor not found")
 			continue
@@ -391,8 +417,18 @@ func ruleObjStmCrosscheck(c *eng.Ctx) {
 	}
 	c.Check(fromField(eng.ArgsWithRecv(call)[1], "Generation") && !fromField(eng.ArgsWithRecv(call)[1], "Offset"), R, name+"#index", call.Pos(), "index within the stream comes from entry.Generation", "the index passed to GetObjectByIndex is not the entry's second field (Generation)")
 	okStm := false
-	for _, gs := range eng.CallsNamed(fn, false, "reader.(*Reader).getObjectStream") {
-		if fromField(eng.ArgsWithRecv(gs)[1], "Offset") && !fromField(eng.ArgsWithRecv(gs)[1], "Generation") {
+	// the loader of the object stream, whatever it is called: the call whose result GetObjectByIndex is applied to
+	for w := range eng.Slice(eng.ArgsWithRecv(call)[0], func(*ssa.Call) bool { return false }) {
+		ex, ok := w.(*ssa.Extract)
+		if !ok {
+			continue
+		}
+		gs, ok := ex.Tuple.(*ssa.Call)
+		if !ok || eng.StaticCallee(gs) == nil || !eng.InModule(eng.StaticCallee(gs)) {
+			continue
+		}
+		args := eng.ArgsWithRecv(gs)
+		if len(args) > 1 && fromField(args[1], "Offset") && !fromField(args[1], "Generation") {
 			okStm = true
 		}
 	}
